@@ -142,7 +142,7 @@ def gen_image(rng, wmax=8, hmax=6):
     w, h = rng.randint(1, wmax), rng.randint(1, hmax)
     p = rng.choice([0.2, 0.5, 0.8])
     px = [[rng.random() < p for _ in range(w)] for _ in range(h)]   # True = white
-    return dict(px_to_mm=rng.choice([0.01, 0.04, 0.125]), speed=rng.choice([1.0, 2.0]), speed_closed=rng.choice([5, 3.0]),
+    return dict(px_to_mm=rng.choice([0.01, 0.04, 0.125]), speed=rng.choice([1.0, 2.0, 3.0]), speed_closed=rng.choice([5, 3.0]),
                 z_init=rng.choice([None, 0.0, -0.01])), px
 
 
